@@ -147,29 +147,78 @@ func FuzzRawC09_Format(f *testing.F) {
 	})
 }
 
+// checkWriterRoundTripRaw is the text-level part of the C10 oracle for an error-free source.
+func checkWriterRoundTripRaw(c *hx.Case, src []byte) {
+	var wf *hclwrite.File
+	var diags hcl.Diagnostics
+	c.Guard("hclwrite.ParseConfig", func() { wf, diags = hclwrite.ParseConfig(src, "t.hcl", hcl.InitialPos) })
+	if diags.HasErrors() || wf == nil {
+		c.Failf("writer-parse-error", "hclwrite.ParseConfig reports: %s", diagStr(diags))
+	}
+	var out []byte
+	c.Guard("File.Bytes", func() { out = wf.Bytes() })
+	inToks, _ := lexConfigToks(src)
+	outToks, _ := lexConfigToks(out)
+	if i := firstTokDiff(inToks, outToks); i >= 0 {
+		c.Failf("token-sequence", "token %d differs: source %s, Bytes() %s", i, tokAt(inToks, i), tokAt(outToks, i))
+	}
+	var formatted []byte
+	c.Guard("Format", func() { formatted = hclwrite.Format(src) })
+	if !bytes.Equal(formatted, out) {
+		c.Failf("bytes-vs-format", "File.Bytes() differs from Format(source)")
+	}
+	// every variable reference of the source is exposed by the writer tree
+	sf, _ := hclsyntax.ParseConfig(src, "t.hcl", hcl.InitialPos)
+	var walk func(sb *hclsyntax.Body, wb *hclwrite.Body, path string)
+	walk = func(sb *hclsyntax.Body, wb *hclwrite.Body, path string) {
+		wattrs := wb.Attributes()
+		if len(wattrs) != len(sb.Attributes) {
+			c.Failf("writer-attr-count", "%s: writer tree exposes %d attributes, source has %d", path, len(wattrs), len(sb.Attributes))
+		}
+		for name, a := range sb.Attributes {
+			wa := wattrs[name]
+			if wa == nil {
+				c.Failf("writer-attr-missing", "%s: attribute %q is not exposed by the writer tree", path, name)
+			}
+			want := map[string]int{}
+			for _, tr := range a.Expr.Variables() {
+				want[tr.RootName()]++
+			}
+			got := map[string]int{}
+			c.Guard("writer Variables", func() {
+				for _, tr := range wa.Expr().Variables() {
+					toks := tr.BuildTokens(nil)
+					if len(toks) > 0 {
+						got[string(toks[0].Bytes)]++
+					}
+				}
+			})
+			for n, k := range want {
+				if got[n] != k {
+					c.Failf("writer-variables", "%s.%s: the source refers to %q %d time(s), the writer tree exposes %d", path, name, n, k, got[n])
+				}
+			}
+		}
+		wblocks := wb.Blocks()
+		if len(wblocks) != len(sb.Blocks) {
+			c.Failf("writer-block-count", "%s: writer tree exposes %d blocks, source has %d", path, len(wblocks), len(sb.Blocks))
+		}
+		for i, bl := range sb.Blocks {
+			if wblocks[i].Type() != bl.Type {
+				c.Failf("writer-block-type", "%s: block %d Type() = %q, source %q", path, i, wblocks[i].Type(), bl.Type)
+			}
+			walk(bl.Body, wblocks[i].Body(), path+"/"+bl.Type)
+		}
+	}
+	c.Guard("writer tree walk", func() { walk(sf.Body.(*hclsyntax.Body), wf.Body(), "") })
+}
+
 func FuzzRawC10_RoundTrip(f *testing.F) {
 	hx.FuzzBytes(f, "C10", "RoundTrip", hclSeeds, func(c *hx.Case, src []byte) {
 		if !errorFreeUTF8Config(src) {
 			return
 		}
 		c.SetBytes("source", src)
-		var wf *hclwrite.File
-		var diags hcl.Diagnostics
-		c.Guard("hclwrite.ParseConfig", func() { wf, diags = hclwrite.ParseConfig(src, "t.hcl", hcl.InitialPos) })
-		if diags.HasErrors() || wf == nil {
-			c.Failf("writer-parse-error", "hclwrite.ParseConfig reports: %s", diagStr(diags))
-		}
-		var out []byte
-		c.Guard("File.Bytes", func() { out = wf.Bytes() })
-		inToks, _ := lexConfigToks(src)
-		outToks, _ := lexConfigToks(out)
-		if i := firstTokDiff(inToks, outToks); i >= 0 {
-			c.Failf("token-sequence", "token %d differs: source %s, Bytes() %s", i, tokAt(inToks, i), tokAt(outToks, i))
-		}
-		var formatted []byte
-		c.Guard("Format", func() { formatted = hclwrite.Format(src) })
-		if !bytes.Equal(formatted, out) {
-			c.Failf("bytes-vs-format", "File.Bytes() differs from Format(source)")
-		}
+		checkWriterRoundTripRaw(c, src)
 	})
 }
